@@ -86,15 +86,6 @@ def run(tier, v):
 def replay(path, v):
     rec = json.load(open(path))
     case = rec["replay"].get("case")
-    # guard necessity (non-vacuity of the design check): with the receiver's digest compare switched off the
-    # same model must violate NoSilentCorruption; the other local checks are reported as redundant or necessary
-    table = {}
-    for wk in (["md5_r"] if quick else ["md5_r", "md5_s", "ack_len", "final"]):
-        g = vlib.tlc("TransferMC", "Transfer_weak_%s.cfg" % wk, timeout=1800, heap="16g")
-        table[wk] = g["violated"] or "not necessary for a single fault"
-    cov["guard_necessity"] = table
-    if table["md5_r"] != "NoSilentCorruption":
-        raise vlib.Infra("non-vacuity: without the receiver's digest compare the model should violate NoSilentCorruption, got %s" % table["md5_r"])
     h = vlib.build_harness(["e2e", "c02"])
     out = E.replay_cases(h, [case])
     files, details = E.gather(out, 1)
